@@ -48,7 +48,12 @@ def parseOp : List String → Option Op
   | ["fs_open", v] => some (.fsOpen v)
   | ["fs_mkstemp"] => some .fsMkstemp
   | ["fs_close", f] => (fid? f).map .fsClose
-  | ["fs_copyfile", v] => if v = "ok" then some (.fsCopyfile true) else if v = "missing" then some (.fsCopyfile false) else none
+  | ["fs_copyfile", v] => some (.fsCopyfile v)
+  | ["fs_copyfile", v, "async"] => some (.fsCopyfile v)
+  | ["fs_open", v, "async"] => some (.fsOpen v)
+  | ["flood", h, n] => do some (.flood (← hid? h) (← n.toNat?))
+  | ["util", u] => if ["cpu_info", "exepath", "memory", "uptime", "ifaddrs", "random", "passwd", "scandir", "readdir", "stat",
+                       "realpath", "mkdtemp"].contains u then some .util else none
   | "ipc_send" :: f :: h :: kinds => do
       let ks ← kinds.mapM hkind?
       some (.ipcSend (← fid? f) (← hid? h) ks)
